@@ -384,7 +384,7 @@ void mmd_export_image_latex(DString * out, const char * source, token * text, li
 
 		if (width) {
 			// Width specified
-			if (width[strlen(width) - 1] == '%') {
+			if (width[0] != '\0' && width[strlen(width) - 1] == '%') {
 				// specified as percent
 				width[strlen(width) - 1] = '\0';
 				temp_float = strtod(width, NULL);
@@ -402,7 +402,7 @@ void mmd_export_image_latex(DString * out, const char * source, token * text, li
 
 		if (height) {
 			// Height specified
-			if (height[strlen(height) - 1] == '%') {
+			if (height[0] != '\0' && height[strlen(height) - 1] == '%') {
 				// specified as percent
 				height[strlen(height) - 1] = '\0';
 				temp_float = strtod(height, NULL);
@@ -1451,7 +1451,7 @@ parse_citation:
 					// Are we citep vs citet?
 					temp_char2 = clean_inside_pair(source, t, false);
 
-					if (temp_char2[strlen(temp_char2) - 1] == ';') {
+					if (temp_char2[0] != '\0' && temp_char2[strlen(temp_char2) - 1] == ';') {
 						temp_bool = true;		// citet
 						temp_char2[strlen(temp_char2) - 1] = '\0';
 					} else {
